@@ -367,7 +367,7 @@ theorem C11_gen_cigar_steps :
     (Gen.C11.trimLower, Gen.C11.trimUpper, Gen.C11.trimPlus) = (0, -1, 1) ∧
     trimSeg [(some 0, none), (some 1, some 0), (some 2, some 1), (some 3, none)] = .ok [(some 1, some 0), (some 2, some 1)] ∧
     Gen.C11.printerCountFirst = true ∧ parseCigar ['3', 'M'] = .ok [(.M, 3)] ∧
-    Gen.C11.readerInit = [("ref_pos", "position"), ("seg_pos", "0"), ("i", "0")] ∧
+    Gen.C11.readerInit = [("refCursor", "position"), ("segCursor", "0"), ("row", "0")] ∧
     readOps 7 [(.M, 1)] = .ok [(some 7, some 0)] ∧
     -- intron guards: `start >= stop` refuses the empty intron, `start < 0` the negative one, (0, 1) is fine
     columnOps ⟨[(3, 3)], false, false, false⟩ [] [] [(some 0, some 0)] = .error .valueError ∧
@@ -380,13 +380,13 @@ orientation `matrix[column[i], column[j]]` with `j > i`, extension-before-openin
 IndexError of integer indices, the gap replacement loops of `get_alignment`, `set_alignment`'s name count guard — each next
 to the model evaluated at the deciding input. -/
 theorem C11_gen_alignment_facts :
-    Gen.C11.facts.lookup "gapped.gapChar" = some "-" ∧ Gen.C11.facts.lookup "gapped.test" = some "NotEq -1" ∧
+    Gen.C11.facts.lookup "gapped.gapChar" = some "-" ∧ Gen.C11.facts.lookup "gapped.test" = some "gap iff index == -1" ∧
     gappedStr [] [[none]] 0 = .ok ['-'] ∧ numberRow 0 ['-', 'x'] = [none, some 0] ∧
     Gen.C11.facts.lookup "trace_from_strings.guard" = some "Lt 2 ValueError" ∧
     Gen.C11.facts.lookup "trace_from_strings.gapTest" = some "Eq '-'" ∧ Gen.C11.facts.lookup "trace_from_strings.increment" = some "1" ∧
     traceFromStrings [['A']] = .error .valueError ∧ traceFromStrings [['A'], ['-']] = .ok [[some 0, none]] ∧
     Gen.C11.facts.lookup "get_codes.dtype" = some "np.int64" ∧ Gen.C11.facts.lookup "get_codes.gapFill" = some "np.int64(-1)" ∧
-    Gen.C11.facts.lookup "get_symbols.alphabet" = some "alignment.sequences[i].get_alphabet()|per-row" := by decide
+    Gen.C11.facts.lookup "get_symbols.alphabet" = some "alignment.sequences[k].get_alphabet()|per-row" := by decide
 
 /-- identity / terminal gaps part of the alignment.py facts (see `C11_gen_alignment_facts`) -/
 theorem C11_gen_alignment_guards :
@@ -395,7 +395,7 @@ theorem C11_gen_alignment_guards :
     Gen.C11.facts.lookup "get_sequence_identity.guards" = some "stop LtE start ValueError" ∧
     Gen.C11.facts.lookup "get_pairwise_sequence_identity.guards" = some "stop LtE start ValueError" ∧
     Gen.C11.facts.lookup "get_sequence_identity.raises" = some "ValueError,ValueError" ∧
-    Gen.C11.facts.lookup "get_sequence_identity.match" = some "len(unique_symbols) == 1 and unique_symbols[0] != -1" ∧
+    Gen.C11.facts.lookup "get_sequence_identity.match" = some "one symbol in the column and not -1" ∧
     Gen.C11.facts.lookup "remove_terminal_gaps.guard" = some "stop Lt start ValueError" ∧
     -- stop = start: identity refuses (`<=`), remove_terminal_gaps returns the empty alignment (`<`)
     findTerminalGaps 2 [[some 0, none], [none, some 0]] = .ok (1, 1) ∧
@@ -404,20 +404,19 @@ theorem C11_gen_alignment_guards :
 
 /-- score / find_terminal_gaps / indexing / FASTA part of the facts (see `C11_gen_alignment_facts`) -/
 theorem C11_gen_alignment_score :
-    Gen.C11.facts.lookup "score.lookup" = some "column[i],column[j]" ∧
-    Gen.C11.facts.lookup "score.innerRange" = some "range(i + 1, codes.shape[0])" ∧
-    Gen.C11.facts.lookup "score.gapOrder" = some "gap_ext,gap_open" ∧ Gen.C11.facts.lookup "score.raises" = some "TypeError" ∧
+    Gen.C11.facts.lookup "score.lookup" = some "matrix[earlier,later]" ∧
+    Gen.C11.facts.lookup "score.pairs" = some "every unordered pair once (earlier < later)" ∧
+    Gen.C11.facts.lookup "score.gapOrder" = some "ext,open" ∧ Gen.C11.facts.lookup "score.raises" = some "TypeError" ∧
     score [[0, 5], [7, 0]] 0 0 true [[0], [1]] [[some 0, some 0]] = .ok 5 ∧
-    Gen.C11.facts.lookup "find_terminal_gaps.firsts" = some "pos[0] if len>0 else trace.shape[0]" ∧
-    Gen.C11.facts.lookup "find_terminal_gaps.lasts" = some "pos[-1] if len>0 else -1" ∧
-    Gen.C11.facts.lookup "find_terminal_gaps.result" = some "max,min+1" ∧
+    Gen.C11.facts.lookup "find_terminal_gaps.start" = some "max(pos[0] if len Gt 0 else ncols)+0" ∧
+    Gen.C11.facts.lookup "find_terminal_gaps.stop" = some "min(pos[-1] if len Gt 0 else -1)+1" ∧
     findTerminalGaps 2 [[some 0, none]] = .ok (1, 0) ∧
-    Gen.C11.facts.lookup "remove_gaps.mask" = some "(alignment.trace != -1).all(axis=1)" ∧
-    Gen.C11.facts.lookup "getitem.raises" = some "IndexError,IndexError,IndexError" ∧
-    Gen.C11.facts.lookup "getitem.integralChecks" = some "3" ∧
-    Gen.C11.facts.lookup "get_alignment.replace" = some "seq_str.replace('-', '');seq_str.replace(char, '-')" ∧
-    Gen.C11.facts.lookup "get_alignment.loops" = some "additional_gap_chars;enumerate(seq_strings)" ∧
-    Gen.C11.facts.lookup "set_alignment.guard" = some "len(gapped_seq_strings) NotEq len(seq_names) ValueError" := by decide
+    Gen.C11.facts.lookup "remove_gaps.mask" = some "columns without any -1" ∧
+    Gen.C11.facts.lookup "getitem.raises" = some "IndexError" ∧
+    Gen.C11.facts.lookup "getitem.integerTest" = some "numbers.Integral in the 1-D and the 2-D branch" ∧
+    Gen.C11.facts.lookup "get_alignment.replace" = some "'-','';char,'-'" ∧
+    Gen.C11.facts.lookup "get_alignment.loops" = some "outer=additional_gap_chars;inner=strings" ∧
+    Gen.C11.facts.lookup "set_alignment.guard" = some "len(rows) NotEq len(seq_names) ValueError" := by decide
 
 /-- multiple.pyx: the leaf returns a **copy**; rows of the first child are rewritten along trace column 0, of the second along
 column 1; order and rows are concatenated first-then-second; `_replace_gaps` writes the gap code for −1 and `seq_code[index]`
